@@ -280,11 +280,59 @@ fn run(a: &Args) {
 }
 
 /// C20: SHA-256 of three serialisations per document (two of one Document value, one of a rebuilt one), clock fixed.
+/// A document with interactive form fields (FormManager): three text fields and a checkbox with two appearance streams.
+fn form_doc() -> Result<Document, String> {
+    use oxidize_pdf::forms::{CheckBox, FormManager, TextField, Widget, WidgetAppearance};
+    use oxidize_pdf::geometry::{Point, Rectangle};
+    let mut doc = Document::new();
+    doc.set_title("form");
+    let fixed = chrono_fixed();
+    doc.set_creation_date(fixed);
+    doc.set_modification_date(fixed);
+    let mut page = Page::a4();
+    let mut fm = FormManager::new();
+    for i in 0..3 {
+        let y = 700.0 - 30.0 * i as f64;
+        let widget = Widget::new(Rectangle::new(Point::new(100.0, y), Point::new(300.0, y + 20.0))).with_appearance(WidgetAppearance::default());
+        let field = TextField::new(format!("f{i}")).with_value(format!("value {i}"));
+        let fref = fm.add_text_field(field, widget.clone(), None).map_err(|e| e.to_string())?;
+        page.add_form_widget_with_ref(widget, fref).map_err(|e| e.to_string())?;
+    }
+    let widget = Widget::new(Rectangle::new(Point::new(100.0, 560.0), Point::new(115.0, 575.0))).with_appearance(WidgetAppearance::default());
+    let cref = fm.add_checkbox(CheckBox::new("agree").checked(), widget.clone(), None).map_err(|e| e.to_string())?;
+    page.add_form_widget_with_ref(widget, cref).map_err(|e| e.to_string())?;
+    doc.add_page(page);
+    doc.set_form_manager(fm);
+    Ok(doc)
+}
+
 fn digest(a: &Args) {
     use sha2::{Digest, Sha256};
     std::panic::set_hook(Box::new(|_| {}));
     let mut out = Out::file(a.req("out"));
     let proc_id = a.num("proc", 0);
+    // form documents under four configurations: the same Document value serialised three times, and a rebuilt one
+    for (k, cfg) in [json!({"xref": false, "objstm": false, "compress": true, "version": "1.7"}), json!({"xref": true, "objstm": false, "compress": true, "version": "1.5"}),
+                     json!({"xref": true, "objstm": true, "compress": true, "version": "1.5"}), json!({"xref": false, "objstm": false, "compress": false, "version": "1.4"})].iter().enumerate() {
+        let cfg2 = cfg.clone();
+        let r = std::panic::catch_unwind(move || -> Result<Vec<Vec<u8>>, String> {
+            let mut d1 = form_doc()?;
+            let b1 = write_doc(&mut d1, &cfg2)?;
+            let b2 = write_doc(&mut d1, &cfg2)?;
+            let b3 = write_doc(&mut d1, &cfg2)?;
+            let mut d4 = form_doc()?;
+            let b4 = write_doc(&mut d4, &cfg2)?;
+            Ok(vec![b1, b2, b3, b4])
+        });
+        match r {
+            Ok(Ok(bs)) => {
+                for (rep, b) in bs.iter().enumerate() {
+                    out.line(&json!({"ev": "ser", "key": format!("form{k}"), "proc": proc_id, "rep": rep, "digest": Sha256::digest(b).to_vec(), "len": b.len(), "cfg": cfg}));
+                }
+            }
+            _ => out.line(&json!({"ev": "ser", "key": format!("form{k}"), "proc": proc_id, "rep": 0, "digest": [], "len": 0, "cfg": cfg})),
+        }
+    }
     for (ci, p) in read_cases(a.req("in")).iter().enumerate() {
         let p2 = p.clone();
         let r = std::panic::catch_unwind(move || -> Result<Vec<Vec<u8>>, String> {
